@@ -19,7 +19,7 @@ TRUSTED_BASE = [
     "axioms: as printed by Print Assumptions under each theorem of coq/Props/<id>.v (copied below as 'axioms')",
     "extraction: Coq Extraction with ExtrOcamlBasic and ExtrOcamlNativeString (their Extract Inductive/Constant directives for bool, option, unit, list, prod, sumbool, string, ascii); no Extract Constant of our own",
     "driver/main.ml: binary64 NumOps record with Python int/float semantics (libm exp/log), wire syntax, dispatch",
-    "xlate/pyxlate.py: translation of the decision and arithmetic expressions of /repo's source into Gallina (coq/Gen, regenerated and tied to the model on every run)",
+    "xlate/pyxlate.py: translation of the decision and arithmetic expressions, and of the whole bodies of Deme.size_at, Epoch.time_span, to_ms.get_growth_rate, Epoch/AsymmetricMigration.assert_close, the Epoch/AsymmetricMigration post-init checks and five validators, of /repo's source into Gallina (coq/Gen, regenerated and proved equal to the model on every run)",
     "IEEE binary64 comparisons satisfy NumLaws: proved for Coq primitive floats in coq/Base/NumF.v (depends on the standard library's FloatAxioms and the Reals/classical axioms Flocq uses; imported only by the binary64 refutation theorems of coq/Props/C11.v)",
     "standard-library axioms used by the exact-real-arithmetic theorems (coq/Base/NumR.v, Props C13 and C07 *_R theorems): ClassicalDedekindReals.sig_not_dec, sig_forall_dec, FunctionalExtensionality.functional_extensionality_dep, Classical_Prop.classic; by the binary64 theorems (Props C11 *_F): the same plus the primitive float / 63-bit integer types and operations and FloatAxioms' specifications; all other theorems are closed under the global context",
     "harness/*.py: generators, canonicalisation, comparison, classification of findings",
@@ -232,8 +232,11 @@ def tie_stage(chk):
         return
     mine = [r for r in report if chk.pid in r.get("props", [])]
     chk.extra["source_guards"] = dict(sites_total=len(report), sites_tied=sum(1 for r in report if r["status"] == "ok"),
+                                      whole_functions_tied=[r["function"] for r in report
+                                                            if r["site"].startswith("f_") and r["status"] == "ok"],
                                       sites_of_this_property=[dict(site=r["site"], function=r["function"], source=r["source"],
-                                                                   status=r["status"]) for r in mine])
+                                                                   status=r["status"], **({"note": r["note"]} if "note" in r else {}))
+                                                              for r in mine])
     chk.extra["tie_obligations"] = len(mine)
     chk.extra["tie_discharged"] = sum(1 for r in mine if r["status"] == "ok")
     for r in mine:
@@ -241,7 +244,8 @@ def tie_stage(chk):
             chk.unproven("tie:" + r["site"],
                          "a decision expression of %s no longer ties to the model: %s" % (r["function"], r["status"]),
                          dict(site=r["site"], file=r["file"], function=r["function"], source=r["source"], status=r["status"],
-                              tie_lemma="coq/Gen/GuardTie.v: tie_" + r["site"]))
+                              tie_lemma=("coq/Gen/FunTie.v: tie_" if r["site"].startswith("f_") else "coq/Gen/GuardTie.v: tie_")
+                              + r["site"]))
 
 
 def proof_stage(chk):
